@@ -69,6 +69,10 @@ def m_expr(e):
         return "[" + ", ".join(m_expr(a) for a in e[1]) + "]"
     if k == "slice":
         return "%s[%s:%s]" % (m_expr(e[1]), "" if e[2] is None else m_expr(e[2]), "" if e[3] is None else m_expr(e[3]))
+    if k == "posname":
+        return "$[[%s]]" % m_expr(e[1])
+    if k == "posval":
+        return "$[[[%s]]]" % m_expr(e[1])
     if k == "call":
         return "%s(%s)" % (e[1], ", ".join(m_expr(a) for a in e[2]))
     if k == "fun1":
@@ -154,6 +158,12 @@ def m_stmt(s, ind):
         return m_expr(s[1])
     if k == "callsub":
         return "call %s(%s)" % (s[1], ", ".join(m_expr(a) for a in s[2]))
+    if k == "assignposname":
+        return "$[[%s]] = %s" % (m_expr(s[1]), m_expr(s[2]))
+    if k == "assignposval":
+        return "$[[[%s]]] = %s" % (m_expr(s[1]), m_expr(s[2]))
+    if k == "emitf":
+        return "emitf " + ", ".join(m_base(b) for b in s[1])
     raise ValueError(k)
 
 
@@ -228,6 +238,10 @@ def c_expr(e):
     if k == "slice":
         void = '(EStr [])'
         return "(ESlice %s %s %s)" % (c_expr(e[1]), void if e[2] is None else c_expr(e[2]), void if e[3] is None else c_expr(e[3]))
+    if k == "posname":
+        return "(EPosName %s)" % c_expr(e[1])
+    if k == "posval":
+        return "(EPosVal %s)" % c_expr(e[1])
     if k == "call":
         return "(ECall %s %s)" % (cb(e[1]), c_list(c_expr(a) for a in e[2]))
     if k == "fun1":
@@ -290,6 +304,12 @@ def c_stmt(s):
         return "(SBare %s)" % c_expr(s[1])
     if k == "callsub":
         return "(SCall %s %s)" % (cb(s[1]), c_list(c_expr(a) for a in s[2]))
+    if k == "assignposname":
+        return "(SAssignPosName %s %s)" % (c_expr(s[1]), c_expr(s[2]))
+    if k == "assignposval":
+        return "(SAssignPosVal %s %s)" % (c_expr(s[1]), c_expr(s[2]))
+    if k == "emitf":
+        return "(SEmitF %s)" % c_list("(%s, %s)" % (cb(b[1]), c_expr((b[0], b[1]))) for b in s[1])
     raise ValueError(k)
 
 
@@ -319,7 +339,7 @@ def ss(s):
     return n
 
 
-STMT_KINDS = {"formulti", "callsub", "assign", "define", "assignsrec", "unset", "if", "while", "do", "for1", "for2", "forc", "cond", "break", "continue",
+STMT_KINDS = {"assignposname", "assignposval", "emitf", "formulti", "callsub", "assign", "define", "assignsrec", "unset", "if", "while", "do", "for1", "for2", "forc", "cond", "break", "continue",
               "return", "print", "emit1", "emitmap", "emitnamed", "filter", "bare"}
 
 # ------------------------------------------------------------------ generator
@@ -428,6 +448,19 @@ class Gen:
         if c < 0.95:
             return self.e_int(cx, 0)
         return r.choice([("str", "a"), ("str", ""), ("bool", True), ("oos", "nosuch")])
+
+    def e_pos(self, cx):
+        r = self.rng
+        c = r.random()
+        if c < 0.6:
+            return ("int", r.randint(1, 4))
+        if c < 0.8:
+            return ("int", -r.randint(1, 4))
+        if c < 0.9:
+            return ("int", r.choice([0, 5, 7, -6]))
+        if c < 0.95:
+            return ("nr",)
+        return r.choice([("str", "a"), ("oos", "nosuch"), ("bool", True)])
 
     def e_bound(self, cx):
         r = self.rng
@@ -720,7 +753,9 @@ class Gen:
         if getattr(self, "bv", False) and not cx["in_func"] and r.random() < 0.2:
             return self.byvalue_stmt(cx)
         kinds = ["assign"] * 6 + ["define"] * 3 + ["print"] * 2 + ["idxassign"] * 2 + ["compound"] * 2 + ["unset", "emit", "bare"]
-        kinds += ["arrdef"] * 2 + ["arrassign"] * 3 + ["arrunset", "arrshow", "arrshow"]
+        kinds += ["arrdef"] * 2 + ["arrassign"] * 3 + ["arrunset", "arrshow", "arrshow", "emitf"]
+        if cx["fields"] and not cx["in_func"]:
+            kinds += ["posassign"] * 2 + ["posshow"]
         if depth > 0:
             kinds += ["if"] * 3 + ["while", "for2", "for2", "for1", "forc", "cond", "do", "formulti", "forarr", "forarr"]
         if cx["in_loop"]:
@@ -740,6 +775,27 @@ class Gen:
             return ("callsub", f["name"], self.e_call(cx, f, 1)[2])
         if k in ("arrdef", "arrassign", "arrunset", "arrshow", "forarr"):
             return self.arr_stmt(cx, depth, k)
+        if k == "emitf":
+            items = []
+            for _ in range(r.randint(1, 3)):
+                c = r.random()
+                ls = self.lookup(cx["scopes"])
+                if c < 0.55 or not ls:
+                    items.append(("oos", r.choice(OOS + ["nosuch"])))
+                elif c < 0.9 or not cx["fields"]:
+                    items.append(("local", r.choice(ls)))
+                else:
+                    items.append(("field", r.choice(FIELDS_INT + FIELDS_STR)))
+            return ("emitf", items)
+        if k == "posassign":
+            pos = self.e_pos(cx)
+            if r.random() < 0.5:
+                name = ("str", r.choice(["a", "b", "c", "new", "x", ""])) if r.random() < 0.8 else self.e_any(cx, 1)
+                return ("assignposname", pos, name)
+            return ("assignposval", pos, self.e_kind(cx, r.choice(["int", "str"]), 1))
+        if k == "posshow":
+            pos = self.e_pos(cx)
+            return ("print", ("bin", ".", ("coal", ("posname", pos), ("str", "-")), ("bin", ".", ("str", "="), ("coal", ("posval", pos), ("str", "-")))))
         if k == "assign":
             base, kind = self.lv_base_kind(cx)
             return ("assign", base, [], self.e_kind(cx, kind, 2), False)
